@@ -22,6 +22,7 @@ pub(crate) struct InstrumentArgs {
     pub(crate) parent: Option<Expr>,
     pub(crate) follows_from: Option<Expr>,
     pub(crate) skips: HashSet<Ident>,
+    pub(crate) skip_all: bool,
     pub(crate) fields: Option<Fields>,
     pub(crate) err_args: Option<EventArgs>,
     pub(crate) ret_args: Option<EventArgs>,
@@ -115,9 +116,21 @@ impl Parse for InstrumentArgs {
                     return Err(input.error("expected only a single `level` argument"));
                 }
                 args.level = Some(input.parse()?);
+            } else if lookahead.peek(kw::skip_all) {
+                if args.skip_all {
+                    return Err(input.error("expected only a single `skip_all` argument"));
+                }
+                if !args.skips.is_empty() {
+                    return Err(input.error("expected only one of `skip` or `skip_all`"));
+                }
+                let _ = input.parse::<kw::skip_all>()?;
+                args.skip_all = true;
             } else if lookahead.peek(kw::skip) {
                 if !args.skips.is_empty() {
                     return Err(input.error("expected only a single `skip` argument"));
+                }
+                if args.skip_all {
+                    return Err(input.error("expected only one of `skip` or `skip_all`"));
                 }
                 let Skips(skips) = input.parse()?;
                 args.skips = skips;
@@ -454,6 +467,7 @@ impl ToTokens for Level {
 mod kw {
     syn::custom_keyword!(fields);
     syn::custom_keyword!(skip);
+    syn::custom_keyword!(skip_all);
     syn::custom_keyword!(level);
     syn::custom_keyword!(target);
     syn::custom_keyword!(parent);
